@@ -23,13 +23,20 @@ class Ctx:
         if name not in self.rules:
             self.rules[name] = {'text': text, 'floor': floor, 'inst': [], 'fixture': None}
             self.order.append(name)
+        self._touch(name)
         return name
+
+    def _touch(self, name):
+        t = self.__dict__.setdefault('_touched', [])
+        if not t or t[-1] != name:
+            t.append(name)
 
     def ob(self, rule, key, ok, where, msg, fact=None):
         """one obligation (rule instance).  key: stable identity (no line numbers)."""
         if rule not in self.rules:
             self.rules[rule] = {'text': '', 'floor': 0, 'inst': [], 'fixture': None}
         self.rules[rule]['inst'].append({'key': key, 'ok': bool(ok), 'where': where, 'msg': msg, 'fact': fact})
+        self._touch(rule)
         if not ok:
             self.findings.append({'rule': rule, 'key': '%s:%s' % (rule, key), 'where': where, 'msg': msg, 'fact': fact})
 
@@ -55,12 +62,18 @@ def borrow(ctx, pid, rules, note):
     if key not in _BORROW:
         mod = importlib.import_module('rules.' + pid)
         c2 = Ctx(pid, ctx.tier, ctx.prog)
-        mod.run(c2)
+        try:
+            mod.run(c2)
+        except AnalysisBroken as e:
+            # the lender lost an anchor somewhere: the rules it had finished before that point are still good; the ones it was working on
+            # (the last two it touched) and the ones it never reached are not
+            c2._broken = str(e)
+            c2._unfinished = set(c2.__dict__.get('_touched', [])[-2:]) | {r_ for r_, R_ in c2.rules.items() if not R_['inst']}
         _BORROW[key] = c2
     c2 = _BORROW[key]
     for r in rules:
-        if r not in c2.rules:
-            raise AnalysisBroken('borrowed rule %s not registered by %s' % (r, pid))
+        if r not in c2.rules or r in c2.__dict__.get('_unfinished', ()):
+            raise AnalysisBroken('borrowed rule %s not available from %s%s' % (r, pid, (': ' + c2._broken) if c2.__dict__.get('_broken') else ' (not registered)'))
         R = c2.rules[r]
         ctx.rule(r, '[shared with %s: %s] %s' % (pid, note, R['text']), floor=R['floor'])
         ctx.rules[r]['inst'].extend(R['inst'])
